@@ -139,17 +139,17 @@ def rule_edges(ctx, rep):
             r.finding(inst + "|no-edge", where, "a %s initialiser names another declaration but contributes no edge: a self-containing structure through it is accepted" % name)
 
 
-def rule_decl_edges(ctx, rep):
+def rule_decl_edges(ctx, rep, rid="R-C07-decledges", order_only=False):
     """Every kind of type declaration whose definition can *name another type directly* (not through an initialiser, which
     R-C07-edges covers) must add an edge where it is visited: the alias `A : B`, an enumeration / subrange / array declared as
     another named type.  The kinds are computed from the DSL type definitions: a payload type D of DataTypeDeclarationKind refers to
     another type if a `Type` is reachable from its fields other than its own name, without passing InitialValueAssignmentKind."""
-    r = rep.rule("R-C07-decledges", "every data-type declaration kind that can name another type in its definition adds a graph edge in its visit "
+    r = rep.rule(rid, "every data-type declaration kind that can name another type in its definition adds a graph edge in its visit "
                                     "override of the declaration-graph builder", floor=4, floor_what="declaration kinds that can name another type")
     adts = ctx.facts.adts
     kind = adts.get("ironplc_dsl::common::DataTypeDeclarationKind")
     if not kind:
-        rep.error("R-C07-decledges", "DataTypeDeclarationKind not found")
+        rep.error(rid, "DataTypeDeclarationKind not found")
         return
     TYPE = "ironplc_dsl::common::Type"
     IVAK = "ironplc_dsl::common::InitialValueAssignmentKind"
@@ -195,16 +195,105 @@ def rule_decl_edges(ctx, rep):
                 continue
             m = "visit_" + snake(d.split("::")[-1])
             ob = overrides.get(m)
+            if ob is None and order_only:
+                # for the order-independence property only: a kind the graph builder never visits gets no node either, and the re-assembly
+                # emits declarations by node - such a declaration is not in the sorted library at all (that is the C03/C07 known
+                # finding), so its position in the input cannot influence the order of the others
+                r.justified(inst, "no override, hence no node: the declaration never reaches the sorted library (decided under C03 R-C03-drain and C07 R-C07-decledges), "
+                            "so its position cannot change the order", where)
+                continue
             if ob is None:
                 r.finding(inst + "|no-override", where, "%s can name another type but the graph builder has no %s override: the reference adds no edge" % (inst, m))
                 continue
             bodies = [ob] + [cb for cb in ctx.prog.bodies.values() if cb.f["dk"] == "Closure" and cb.f.get("parent") == ob.id]
-            has = any((c.callee or "").endswith("::add_edge") for bd in bodies for c in bd.calls())
+            has = any(may_do(ctx, bd, "::add_edge") for bd in bodies)
             if has:
                 r.ok(inst, "%s:%d" % (ob.f["file"], ob.f["line"]), m + " adds an edge")
             else:
                 r.finding(inst + "|no-edge", "%s:%d" % (ob.f["file"], ob.f["line"]), "%s never adds an edge although a %s can be declared as another named type: "
                           "a cycle through such a declaration is not a cycle of the graph" % (m, inst))
+
+
+def rule_edgeguard(ctx, rep, rid="R-C07-edgeguard"):
+    """An edge of the declaration graph is a fact about two declarations.  Whether it is inserted may depend on the declaration being
+    visited (its kind, its initializer, the container it is in), never on what the traversal has seen before: an insertion that is
+    guarded by a look-up in a collection the visitor fills on its way (a "seen" set, a de-duplication table) drops the edge for a
+    later declaration that happens to repeat a name - and with it a cycle."""
+    r = rep.rule(rid, "no insertion of an edge is guarded by a membership test / insert on a collection that the graph builder fills while it walks "
+                      "(edges depend on the declaration visited, not on the traversal's history)", floor=7, floor_what="add_edge sites")
+    from vlib.mir import switch_info
+    n = 0
+    for b in sorted(ctx.prog.bodies.values(), key=lambda x: x.id):
+        if b.f["crate"] != "ironplc_analyzer" or "xform_toposort_declarations" not in b.f["file"] or "::test" in norm(b.id):
+            continue
+        dom = b.dominators()
+        k = 0
+        for c in sorted(b.calls(), key=lambda c: (c.loc[0], c.loc[1])):
+            if not (c.callee or "").endswith("::add_edge"):
+                continue
+            n += 1
+            k += 1
+            inst = "%s|add_edge#%d" % (b.f["name"], k)
+            bad = None
+            for d_ in dom.get(c.bb, set()):
+                si = switch_info(b, d_)
+                if not si or si["subject"][0] != "call":
+                    continue
+                g = si["subject"][1]
+                gm = (g.callee or g.u or "").split("::")[-1]
+                if gm not in ("insert", "contains", "contains_key", "get", "replace", "remove", "take") or not g.args:
+                    continue
+                if not re.search(r"HashSet|HashMap|BTreeSet|BTreeMap|Vec", g.callee or ""):
+                    continue
+                rp = op_place(g.args[0])
+                rt = b.root(rp) if rp is not None else None
+                fs = [x for x in (rt[1] if rt else []) if isinstance(x, list) and x[0] == "f"]
+                if rt and rt[0] == 1 and fs:
+                    bad = (gm, ".".join(x[2] for x in fs))
+            if bad:
+                r.finding(inst + "|guarded by %s" % bad[1], loc_str(b.f, c.loc), "the edge is only inserted depending on %s() of the visitor's own `%s`, which it fills while it walks: a declaration that "
+                          "repeats a name seen earlier gets no edge, and a cycle through it is not a cycle of the graph" % bad)
+            else:
+                r.ok(inst, loc_str(b.f, c.loc))
+    if not n:
+        rep.error(rid, "no add_edge site found")
+
+
+def must_call(ctx, b, suffix, depth=2, _seen=None):
+    """does every path from the entry of `b` to a return pass a call of a function whose name ends with `suffix` (directly, or
+    through a workspace callee for which the same holds)?  A wrapper counts as doing X only when all its paths do."""
+    _seen = _seen or set()
+    if b.id in _seen:
+        return False
+    _seen = _seen | {b.id}
+    hits = set()
+    for c in b.calls():
+        nm = c.callee or ""
+        if nm.endswith(suffix):
+            hits.add(c.bb)
+        elif depth and nm.startswith("ironplc_") and not nm.endswith(("recurse_visit", "::walk")):
+            for cb in ctx.prog.get(nm) or []:
+                if must_call(ctx, cb, suffix, depth - 1, _seen):
+                    hits.add(c.bb)
+                    break
+    if not hits:
+        return False
+    for x in b.reachable(0, avoid=hits):
+        if b.term(x)[0] == "ret":
+            return False
+    return True
+
+
+def may_do(ctx, b, suffix, depth=2):
+    """a call of `suffix` in `b` itself, or a call of a workspace function that must_call it"""
+    for c in b.calls():
+        nm = c.callee or ""
+        if nm.endswith(suffix):
+            return True
+        if depth and nm.startswith("ironplc_analyzer::") and not nm.endswith(("recurse_visit", "::walk")):
+            if any(must_call(ctx, cb, suffix, depth - 1) for cb in ctx.prog.get(nm) or []):
+                return True
+    return False
 
 
 def rule_map(ctx, rep):
@@ -316,6 +405,7 @@ def run(ctx, rep):
     rule_edges(ctx, rep)
     rule_map(ctx, rep)
     rule_decl_edges(ctx, rep)
+    rule_edgeguard(ctx, rep)
     # the cycle check sees the whole unit: the sort runs once, on the joined library, first
     from rules.c06 import rule_pipeline
     rule_pipeline(ctx, rep, rid="R-C07-pipeline")
